@@ -1,6 +1,7 @@
 (* C15 - Subset load balancing honours metadata and its fallback policy.  Only statements; proofs by `exact`. *)
 From Coq Require Import List Arith Bool.
-From MV Require Import Gen.SubsetTokens Model.Subset Proofs.Subset Proofs.SubsetKeys Proofs.SubsetIx.
+From MV Require Import Gen.SubsetTokens Gen.CriteriaTokens Model.Subset Model.Criteria Proofs.Subset Proofs.SubsetKeys
+  Proofs.SubsetIx Proofs.Criteria.
 Import ListNotations.
 
 (* make1 = NewSubsetLoadBalancer (filtering builder), make2 = NewSubsetLoadBalancerPreIndex (pre-indexed builder).
@@ -138,6 +139,34 @@ Print Assumptions c15_subset_applies_configured.
 Example c15_selector_example :
   generate_subset_keys [[3; 1]; [1]; [1; 3; 1]; []; [2; 3]; [3]; []] = [[1; 3]; [1]; []; [2; 3]; [3]].
 Proof. vm_compute. reflexivity. Qed.
+
+(* The criteria-merging step (downStream.MetadataMatchCriteria, Model/Criteria.v): `crit_mode` = how the criteria of a
+   request with dynamic metadata are produced, READ FROM pkg/proxy/downstream.go.  For EVERY history of requests through
+   one route: the criteria used for request k are merge_criteria(route configuration, metadata of request k) -
+   independent of all earlier requests - and the route's own criteria are unchanged after the history.
+   Type-checks only while a fresh object is built; merging into the route's shared object is refuted. *)
+Theorem c15_criteria_translator_ok : CriteriaTokens_translator_ok = true.
+Proof. exact (eq_refl true). Qed.
+
+Theorem c15_request_criteria_independent : forall route reqs,
+  snd (crit_run crit_mode route reqs) = map (merge_criteria route) reqs /\
+  fst (crit_run crit_mode route reqs) = route.
+Proof. exact (crit_independent_of_mode crit_mode (eq_refl CritFresh)). Qed.
+Print Assumptions c15_request_criteria_independent.
+
+(* what merge_criteria is: the request value wins per key, route pairs are kept for the other keys, sorted by key *)
+Theorem c15_merge_request_wins : forall m route k, NoDup (map fst m) ->
+  lookup k (merge_pairs route m) = match lookup k m with Some v => Some v | None => lookup k route end.
+Proof. exact merge_request_wins. Qed.
+Print Assumptions c15_merge_request_wins.
+
+Theorem c15_merge_sorted : forall m route, ssorted (map fst route) -> ssorted (map fst (merge_pairs route m)).
+Proof. exact merge_sorted. Qed.
+Print Assumptions c15_merge_sorted.
+
+Theorem c15_criteria_merge_in_place_refuted : ~ crit_independent_statement CritMergeInPlace.
+Proof. exact crit_merge_in_place_refuted. Qed.
+Print Assumptions c15_criteria_merge_in_place_refuted.
 
 (* C05's statements on top of subset balancing: whatever the criteria and the fallback, the returned host is a
    host of the cluster, and healthy whenever the inner policy only returns healthy hosts *)
